@@ -308,28 +308,32 @@ impl Entry {
     pub fn as_bytes(&self) -> Vec<u8> {
         let mut bytes = Vec::new();
         for c in &self.checksums {
-            bytes.extend_from_slice(
-                format!(
-                    "{} ({}) = {}\n",
-                    c.digest,
-                    self.filename.display(),
-                    c.hash
-                )
-                .as_bytes(),
-            );
+            bytes.extend_from_slice(&checksum_line(&self.filename, c));
         }
         if let Some(size) = self.size {
-            bytes.extend_from_slice(
-                format!(
-                    "Size ({}) = {} bytes\n",
-                    self.filename.display(),
-                    size
-                )
-                .as_bytes(),
-            );
+            bytes.extend_from_slice(&size_line(&self.filename, size));
         }
         bytes
     }
+}
+
+/*
+ * Construct "DIGEST (filename) = hash" and "Size (filename) = n bytes" lines.
+ * File names are arbitrary bytes and must be written as such, not through a
+ * lossy UTF-8 conversion.
+ */
+fn checksum_line(filename: &Path, c: &Checksum) -> Vec<u8> {
+    let mut line = format!("{} (", c.digest).into_bytes();
+    line.extend_from_slice(filename.as_os_str().as_bytes());
+    line.extend_from_slice(format!(") = {}\n", c.hash).as_bytes());
+    line
+}
+
+fn size_line(filename: &Path, size: u64) -> Vec<u8> {
+    let mut line = b"Size (".to_vec();
+    line.extend_from_slice(filename.as_os_str().as_bytes());
+    line.extend_from_slice(format!(") = {} bytes\n", size).as_bytes());
+    line
 }
 
 /**
@@ -683,39 +687,16 @@ impl Distinfo {
 
         for q in self.distfiles.values() {
             for c in &q.checksums {
-                bytes.extend_from_slice(
-                    format!(
-                        "{} ({}) = {}\n",
-                        c.digest,
-                        q.filename.display(),
-                        c.hash
-                    )
-                    .as_bytes(),
-                );
+                bytes.extend_from_slice(&checksum_line(&q.filename, c));
             }
             if let Some(size) = q.size {
-                bytes.extend_from_slice(
-                    format!(
-                        "Size ({}) = {} bytes\n",
-                        q.filename.display(),
-                        size
-                    )
-                    .as_bytes(),
-                );
+                bytes.extend_from_slice(&size_line(&q.filename, size));
             }
         }
 
         for q in self.patchfiles.values() {
             for c in &q.checksums {
-                bytes.extend_from_slice(
-                    format!(
-                        "{} ({}) = {}\n",
-                        c.digest,
-                        q.filename.display(),
-                        c.hash
-                    )
-                    .as_bytes(),
-                );
+                bytes.extend_from_slice(&checksum_line(&q.filename, c));
             }
         }
 
